@@ -1,5 +1,6 @@
 """SymStr: str with concrete length and symbolic code points.  OpaqueStr: the
 result of formatting something we do not model (only ever fit for logging)."""
+import re
 import z3
 
 from . import ir
@@ -395,6 +396,9 @@ def parse_int(x, base=10):
             c = c[1:]
         if not c:
             raise ValueError('invalid literal for int()')
+        src = rendered_source(cps(x))
+        if src is not None:
+            return src
         v = 0
         for d in c:
             if not bool(is_digit(d)):
@@ -415,6 +419,12 @@ def to_str(x):
         return int_to_str(x)
     if type(x).__name__ == 'SymFloat':
         return x.to_str()
+    f = getattr(type(x), '__str__', None)
+    if isinstance(f, type(to_str)):          # a Python-level __str__ may return a symbolic string
+        r = f(x)
+        if isinstance(r, LazyStr):
+            r = r._force()
+        return r
     return str(x)
 
 
@@ -443,7 +453,25 @@ def int_to_str(x):
     digs = []
     for i in range(nd):
         digs.append(48 + (a // (10 ** (nd - 1 - i))) % 10)
-    return mkstr(([45] if neg else []) + digs)
+    items = ([45] if neg else []) + digs
+    # remember that these code points are the decimal rendering of x on this path, so that
+    # int(str(x)) is x again without asking the solver to re-add the digits
+    reg = Ctx.cur.__dict__.setdefault('_rendered', {})
+    reg[_render_key(items)] = (x, items)
+    return mkstr(items)
+
+
+def _render_key(items):
+    return tuple(id(c.n) if type(c) is SymInt else c for c in items)
+
+
+def rendered_source(items):
+    """the SymInt whose decimal rendering these code points are (on this path), or None"""
+    ctx = Ctx.cur
+    if ctx is None:
+        return None
+    ent = ctx.__dict__.get('_rendered', {}).get(_render_key(items))
+    return None if ent is None else ent[0]
 
 
 def percent_format(fmt, args):
@@ -496,6 +524,18 @@ def _fmt_piece(v, flags, conv):
     if flags not in ('',):
         if not isinstance(v, (SymStr, SymInt, SymBool)) and type(v).__name__ != 'SymFloat':
             return cps(('%' + flags + conv) % v)
+        m = re.fullmatch(r'0(\d+)', flags)
+        if m and conv in 'di' and type(v) is SymInt:
+            w = int(m.group(1))
+            if bool(v >= 0) and bool(v < 10 ** w):
+                items = [48 + (v // (10 ** (w - 1 - i))) % 10 for i in range(w)]
+                Ctx.cur.__dict__.setdefault('_rendered', {})[_render_key(items)] = (v, items)
+                return items
+            r = cps(int_to_str(v))
+            if len(r) >= w:
+                return r
+            neg = r[:1] == [45]
+            return ([45] if neg else []) + [48] * (w - len(r)) + (r[1:] if neg else r)
         raise Inconclusive('format flags %r on symbolic value' % flags)
     if conv in 'sr':
         if conv == 'r' and isinstance(v, (str, SymStr)):
@@ -512,7 +552,7 @@ def _fmt_piece(v, flags, conv):
 def str_method(selfobj, name, a, k):
     """method of a concrete str receiving symbolic arguments"""
     if name == 'join':
-        parts = list(a[0])
+        parts = [p._force() if isinstance(p, LazyStr) else p for p in a[0]]
         if any(isinstance(p, HexStr) for p in parts):
             out = []
             for p in parts:
